@@ -23,6 +23,15 @@ CHECKS = {
  "C05": dict(tech="explicit-state exploration with a key->identity injectivity table over all visited positions, plus exhaustive enumeration of the single-component perturbation alphabet (~850 variants) on a subset",
    text="All pairs among the visited identities are compared through the key->identity table (no two identities may share a key); for a subset of positions every single-component perturbation (side, each right, each en-passant file, each of 64 squares x 13 contents) must change the key.",
    ref="2/C05", note=WALK_NOTE + " A genuine 64-bit collision is possible in principle (p < 1e-4 at 50M keys)."),
+ "C06": dict(tech="complete enumeration of the input domain (64 squares x every subset of the squares on the slider's lines x a background family; all 64 squares for leapers and pawns) against a square-by-square ray walk",
+   text="The finite input space of the attack tables is enumerated completely in both tiers: rook 64 x 2^14 line subsets, bishop every line subset, queen every subset of one line family under {empty, full, every single square} of the other, each under the off-line backgrounds {empty, all, every single square} and with the own square occupied or not; knight, king and both pawn colours on all 64 squares. exhaustive=true.",
+   ref="2/C06", note="Trusted base: a 20-line ray walk / offset list with explicit edge tests. Full 2^64 occupancies are not enumerated: off-line squares are covered by the background family because the engine masks them out.", engine="tables"),
+ "C07": dict(tech="exhaustive enumeration of a generated FEN family per explored base position (all castling subsets, all valid en-passant squares, clock boundary grid, full 151x6000 clock grid on 3 bases) against an independent FEN reader, plus depth-bounded bisimulation played-vs-loaded on the real Board",
+   text="Every base position of an explorer walk is turned into its complete family of valid FEN strings (6-field and 4-field; every castling subset consistent with king/rook placement; none and every valid en-passant square for either side to move; 10x10 clock boundary grid) and each string loaded by Board::from_fen must agree field by field with the oracle's independent reader, have key == from-scratch key, an empty repetition memory and the rules' legal-move set; the loaded board and the board reached by play must stay observably equal under all move sequences to depth 1-2 (make and unmake).",
+   ref="2/C07", note=WALK_NOTE + " Only valid FENs are generated.", engine="explorer"),
+ "C17": dict(tech="complete enumeration of all 3^10 material signatures x side to move, plus explicit-state exploration of walk positions; metamorphic oracle eval(P)==eval(mirror P)==-eval(P, other side to move)",
+   text="The evaluator is run on every position of an explorer walk and on all 59049 material signatures (0-2 of each non-king piece kind) x both sides to move, each together with its colour mirror and its side-swapped twin built by the oracle; the three values must satisfy the two symmetry equations.",
+   ref="2/C17", note="Trusted base: the oracle's mirror construction and Board::from_fen (checked by C07). The material grid uses one fixed square arrangement per signature.", engine="explorer"),
 }
 
 NOT_YET = {}
